@@ -103,19 +103,23 @@ def run_property(pid, tier, seed, jobs=None):
     results = list(bind_errors)
     if work or extras:
         ctx = mp.get_context('fork')
+        # hard budget for the whole pool: a solver call that ignores its own timeout must not hang the check.  Tasks
+        # that have not finished by then are reported as checker faults; what the finished ones found is still reported
+        budget = 2400 if tier == 'quick' else 14400
         with ctx.Pool(nproc, maxtasksperchild=8) as pool:
-            r1 = pool.map_async(_worker, work, chunksize=1)
-            r2 = pool.map_async(_extra_worker, extras, chunksize=1)
-            # hard budget for the whole pool: a solver call that ignores its own timeout must not hang the check
-            budget = 2400 if tier == 'quick' else 14400
-            try:
-                results += r1.get(timeout=budget)
-                results += r2.get(timeout=max(60, budget - (time.time() - t0)))
-            except mp.TimeoutError:
-                pool.terminate()
-                print(f'CHECKER-FAULT property={pid} a worker exceeded the hard budget of {budget} s (solver ignoring its '
-                      f'timeout); nothing is concluded from this run')
-                return 3
+            pending = [(('contract', w), pool.apply_async(_worker, (w,))) for w in work] + \
+                      [(('extra', e), pool.apply_async(_extra_worker, (e,))) for e in extras]
+            for (kind, job), ar in pending:
+                left = budget - (time.time() - t0)
+                try:
+                    results.append(ar.get(timeout=max(1.0, left)))
+                except mp.TimeoutError:
+                    name = f'{job[0]}[{job[1]}]' if kind == 'contract' else f'{job[0]}.{job[1]}'
+                    results.append({'contract': name, 'instance': '', 'obligations': [],
+                                    'error': f'not finished within the hard budget of {budget} s for the whole check (a solver '
+                                             f'call ignoring its timeout, or a proof lost on many paths); nothing is concluded '
+                                             f'for this function from this run'})
+            pool.terminate()
     return finish(pid, pmod, tier, seed, results, time.time() - t0)
 
 
